@@ -65,6 +65,7 @@ MUTANTS = [
     {"name": "revert-26d5b4e-abstract-container-elements", "revert": "26d5b4e", "props": ["C01"]},
     {"name": "revert-a63d0d7-strict-recheck-after-lax", "revert": "a63d0d7", "props": ["C01", "C03"]},
     {"name": "revert-55b7cc4-shared-typing-forwardref", "revert": "55b7cc4", "props": ["C17", "C19"]},
+    {"name": "revert-6f3d216-not-taken-values", "revert": "6f3d216", "props": ["C06"]},
     # ---- C01 ------------------------------------------------------------------------------
     {"name": "c01-seq-first-element-unconverted", "props": ["C01"], "edits": [{"file": R, "old": """                try:
                     result.append(
